@@ -814,7 +814,6 @@ class Tr:
         if m and m.group(1) in ('f64', 'u8'): return self.default_of(m.group(1)), 'pure'
         if re.match(r'^Vec::<.*>::new$', callee): return '[]', 'pure'
         if re.match(r'^Vec::<.*>::with_capacity$', callee): return '[]', 'pure'      # capacity is not observable
-        if re.match(r'^(alloc::)?slice::<impl \[.*\]>::to_vec$', callee): return av()[0], 'pure'
         if re.match(r'^Vec::<.*>::push$', callee):
             a1 = self.operand(args[1], env)[0]
             return ('Vec.push', a1), 'mutself'
